@@ -143,8 +143,8 @@ theorem parseTzGroup_tzPart (off : Int) (hoff : off.natAbs < 1440) (sp : Spellin
     parseOffset_formatOffset off hoff
   have hk := parseOffset_compact off hoff
   have hnl := signChar_ne_nl off
-  cases tz <;> cases tzsep <;> simp only [tzPart, Bool.false_and, Bool.true_and, if_true, if_false,
-    List.nil_append, List.cons_append, bne_self_eq_false, Bool.false_eq_true]
+  cases tz <;> cases tzsep <;> simp only [tzPart, Bool.false_and, Bool.true_and, if_false,
+    List.nil_append, bne_self_eq_false, Bool.false_eq_true]
   -- colon, attached
   · have : tzText off .colon = signChar off :: (pad2 (off.natAbs / 60) ++ ':' :: pad2 (off.natAbs % 60)) := rfl
     rw [this]
